@@ -590,6 +590,30 @@ def cone_type_lines(rep, F, tag):
     R.guard(body)
 
 
+def buffer_read_only(rep, F, tag):
+    """Reading the captured log must not change it: get_print_buffer takes &mut self for historical reasons, but a buffer that is emptied
+    (mem::take, drain, clear) by a read holds less than the file and stream targets after the next solve."""
+    R = rep.rule('C20.R11', 'get_print_buffer does not modify the print target')
+
+    def body():
+        fs = [x for x in F.find(name='get_print_buffer') if 'PrintTarget' in (x.impl_self or '')]
+        if len(fs) != 1:
+            raise AnchorError('get_print_buffer for PrintTarget matched %d functions' % len(fs))
+        f = fs[0]
+        MUT = {'take', 'replace', 'swap', 'drain', 'clear', 'truncate', 'split_off', 'append', 'push', 'extend', 'extend_from_slice', 'retain', 'resize', 'set_len', 'pop', 'remove'}
+        n = 0
+        for val, ret, ev, tr in Walker(f).leaves():
+            if ret[0] == 'diverge':
+                continue
+            n += 1
+            st = [str(e[1])[:40] for e in ev if e[0] == 'store' and 'self' in str(e[1])]
+            cs = [e[1] for e in ev if e[0] == 'call' and e[1] in MUT and 'self' in str(e[2])]
+            R.check(not st and not cs, 'read-only|%s%s' % (sorted(val.values()), tag), 'get_print_buffer modifies the target on a path (stores %s, calls %s)' % (st, cs), f.loc())
+        R.check(n >= 2, 'paths' + tag, 'only %d paths of get_print_buffer analysed' % n)
+
+    R.guard(body)
+
+
 def run(ctx, rep, tier):
     for cfg in CONFIGS:
         F = ctx.facts(cfg)
@@ -603,6 +627,7 @@ def run(ctx, rep, tier):
         settings_header(rep, F, tag)
         cone_dims_list(rep, F, tag)
         fresh_targets(rep, F, tag)
+        buffer_read_only(rep, F, tag)
         cone_type_lines(rep, F, tag)
         # 'presolve: removed N constraints' is mfull - mreduced: the bookkeeping of the reduction map (C09.R2 re-run)
         from . import c09
